@@ -145,7 +145,7 @@ func (g *docGen) key(prev []byte) []byte {
 	if g.c.DupKeys && g.r.Chance(1, 12) {
 		return []byte(`""`)
 	}
-	if g.c.DupKeys && prev != nil && g.r.Chance(1, 5) {
+	if g.c.DupKeys && prev != nil && bytes.IndexByte(prev, '\\') < 0 && g.r.Chance(1, 5) {
 		// same length, different content
 		k := append([]byte{}, prev...)
 		if len(k) > 2 {
